@@ -290,6 +290,11 @@ class BaseInterpolatablePreProcessor:
             _GlyphSet.from_layer(ufo, layerName, copy=not inplace)
             for ufo, layerName in zip_strict(ufos, layerNames)
         ]
+        # The instantiator was built from the fonts' own glyph objects: make it work
+        # on our glyphSets (copies unless inplace) right from the start, otherwise
+        # filters get hold of - and can modify - the caller's glyphs through the
+        # interpolated layers until some filter first triggers a refresh.
+        self._update_instantiator()
         if skipExportGlyphs:
             from ufo2ft.filters.skipExportGlyphs import SkipExportGlyphsIFilter
 
